@@ -122,8 +122,9 @@ func main() {
 		}
 		os.Exit(doReplay(prop, os.Args[3]))
 	}
+	// the command's own argument names the tier; VERIF_TIER is only used when the argument is "auto"
 	tier := os.Args[2]
-	if v := os.Getenv("VERIF_TIER"); v == "quick" || v == "thorough" {
+	if v := os.Getenv("VERIF_TIER"); tier == "auto" && (v == "quick" || v == "thorough") {
 		tier = v
 	}
 	if tier != "quick" && tier != "thorough" {
@@ -267,7 +268,7 @@ func (r *run) runChild(k *child, bin string, nshards int) {
 	}
 	to := ph.Timeout
 	if to == 0 {
-		to = 15 * time.Minute
+		to = 6 * time.Minute
 		if r.tier == "thorough" {
 			to = 90 * time.Minute
 		}
